@@ -812,6 +812,12 @@ def run_c15(ctx):
             if a and a not in seen:
                 seen.add(a)
                 cands.append(a)
+    # prefixes that leave something behind other than the configuration (definitions, literal-buffer content, flags a
+    # statement could set): each is paired with every look-behind-sensitive continuation below
+    carriers = ["total = 1 %if &c %then + 2;", "x %if 1 %then y;", "a = b %then c;", "%macro m; x %mend;", "%macro Util / des='no params'; %mend;",
+                "title 'it''s';", "%put %let a=1;", "title 'caf\u00e9';", "x = 1;\x0b* note;", "%let s=%str(%'x);", "a='41'x;", "%do i=1 %to 2; %end;",
+                "%if 1 %then %do; %end;", "%m(a=1);", "%let x=%eval(1+1);", "data a; set b; run;", "%lbl: x;", "/* c */ ;", "%* c;", "* c;"]
+    cands = carriers + cands
     rpl = ctx.replay_case
     if rpl is not None:
         cands = [rpl.get("A", rpl["src"])]
@@ -836,14 +842,19 @@ def run_c15(ctx):
                       "%let a=1;", "%if 1 %then a;", "%* c;", "a*b;", "=*c;", "%m * c;", "%m(1) %lbl:", "'s' * c;", ";* c;",
                       "%put a; datalines;\n1\n;", "%end; * c;", "%macro m; * c; %mend;"]]
     # continuations with unquoted payloads (the literal buffer is shared with the prefix)
-    sens += ["%let s = %str(%'s);", "%put %nrstr(%%a);", "x='it''s';", "t = \"a\"\"b\";", "%put %str(a%)b) 'c''d';", "y='41'x;",
+    sens += [" %else * 3;", "%if &d %then %put one; %else * a comment statement;", "%else %do; * c; %end;", "%then * c;", "%end; * c;",
+             "%mend; * c;", "%m(1, b=2);", "%macro m; x %mend; %m(1)", "%put %let b=2;", "title \"Report %util(a=1) end\";", "\x0b* note;\nrun;",
+             "%let s = %str(%'s);", "%put %nrstr(%%a);", "x='it''s';", "t = \"a\"\"b\";", "%put %str(a%)b) 'c''d';", "y='41'x;",
              "%let q=%str(%();", "%m('a''b', %str(%,))", "title \"&v it\"\"s\";", "%str(%'s)", "'a''b'"]
     per_a = 6 if q else 30
     maxpairs = 10000 if q else 150000
     tuples = []
     rng.shuffle(closed)
+    cset = set(carriers)
+    closed.sort(key=lambda a: a["src"] not in cset)     # the carriers first (stable: the shuffled order of the others is kept)
     for a in closed:
-        for b in ([rpl.get("B", "")] if rpl is not None else rng.sample(bpool, per_a) + rng.sample(sens, 2 if q else 8)):
+        for b in ([rpl.get("B", "")] if rpl is not None else
+                  (sens + rng.sample(bpool, per_a) if a["src"] in cset else rng.sample(bpool, per_a) + rng.sample(sens, 2 if q else 8))):
             tuples.append((a, b))
         if len(tuples) >= maxpairs:
             break
